@@ -58,6 +58,9 @@ pub enum Mutation {
 pub enum ImageSpec {
     Random { blocks: u16, seed: u64, signature: bool },
     Mutant { base: u16, muts: Vec<Mutation> },
+    /// a file whose first `zero` blocks are zero and that has foreign content further in (a blank
+    /// device scan that stops early would take the file over): `zero` around the scan's chunk size
+    ZeroHead { blocks: u16, zero: u16, seed: u64 },
 }
 
 fn interesting_u64() -> BoxedStrategy<u64> {
@@ -110,6 +113,7 @@ fn spec_strategy() -> BoxedStrategy<ImageSpec> {
     prop_oneof![
         2 => (17u16..96, any::<u64>(), any::<bool>()).prop_map(|(blocks, seed, signature)| ImageSpec::Random { blocks, seed, signature }),
         12 => (any::<u16>(), proptest::collection::vec(mutation(), 1..5)).prop_map(|(base, muts)| ImageSpec::Mutant { base, muts }),
+        1 => (prop_oneof![Just(255u16), Just(256u16), Just(257u16), Just(511u16), Just(512u16), Just(513u16), 17u16..700], 1u16..40, any::<u64>()).prop_map(|(zero, extra, seed)| ImageSpec::ZeroHead { blocks: zero + extra, zero, seed }),
     ]
     .boxed()
 }
@@ -411,6 +415,19 @@ fn materialise(spec: &ImageSpec, bases: &[(Config, Vec<u8>)]) -> (Vec<u8>, bool)
             }
             (img, false)
         }
+        ImageSpec::ZeroHead { blocks, zero, seed } => {
+            let mut s = *seed | 1;
+            let mut img = vec![0u8; *blocks as usize * B];
+            // one to three blocks of foreign bytes somewhere behind the zero prefix
+            for _ in 0..1 + xorshift(&mut s) % 3 {
+                let b = *zero as usize + (xorshift(&mut s) as usize) % (*blocks - *zero) as usize;
+                let n = 1 + (xorshift(&mut s) as usize) % B;
+                for x in &mut img[b * B..b * B + n] {
+                    *x = (xorshift(&mut s) as u8) | 1;
+                }
+            }
+            (img, false)
+        }
         ImageSpec::Mutant { base, muts } => {
             let (cfg, img) = &bases[(*base as usize * bases.len()) >> 16];
             let mut img = img.clone();
@@ -462,7 +479,15 @@ fn judge(img: &[u8], ttl: bool, st: &mut WorkerStats) -> Result<(), (String, Str
         Err(e) => {
             let kind = format!("{:?}", crate::model::classify(&e));
             *st.by_error.entry(kind.clone()).or_insert(0) += 1;
-            let door = matches!(e, feoxdb::FeoxError::InvalidDevice | feoxdb::FeoxError::InvalidMetadata);
+            // "fails for size or metadata reasons": the error class alone is not enough - the
+            // store also reports InvalidMetadata from later stages (e.g. a forged journal whose
+            // generation counter cannot be advanced, after the journal was replayed). The clause
+            // is applied when the independent codec agrees that size or metadata are unusable.
+            let door_code = matches!(e, feoxdb::FeoxError::InvalidDevice | feoxdb::FeoxError::InvalidMetadata);
+            let door = door_code && layout::decode_image(img).is_err();
+            if door_code && !door {
+                *st.by_error.entry("metadata-error-code-behind-valid-metadata".into()).or_insert(0) += 1;
+            }
             if door {
                 st.rejected_at_door += 1;
             } else {
